@@ -18,6 +18,75 @@ import (
 
 const nsPerS = 1000000000
 
+// ---- single-value time models (HarnessSpec.TimeUnit = "ns" or "ms") ----
+// A Time is {wall = 0, ext = instants in the unit since the Unix epoch}.  They
+// avoid the seconds/nanoseconds split where a harness needs no calendar
+// arithmetic ("ns": Now/Add/Sub/Since/After only) or works in milliseconds
+// throughout ("ms": the metrics counter).  Sub-unit precision is dropped in
+// "ms" mode (stated in the evidence notes).
+func (e *Engine) unitNs() int64 {
+	switch e.spec.TimeUnit {
+	case "ns":
+		return 1
+	case "ms":
+		return 1000000
+	}
+	return 0
+}
+
+func uTime(v *Term) *StructV { return &StructV{F: []Value{c64(0), v, nilPtr}} }
+func uVal(v Value) *Term     { return v.(*StructV).F[1].(*Term) }
+
+func (e *Engine) uNow(g *Term) *StructV {
+	u := e.unitNs()
+	v := e.newNondet("time.Now."+e.spec.TimeUnit, "bv", 64, BV(64), 0)
+	lo, hi := e.spec.ClockMin, e.spec.ClockMax
+	if lo == 0 && hi == 0 {
+		lo, hi = 1577836800, 4102444800
+	}
+	per := int64(nsPerS) / u
+	e.assume(And(Sge(v, c64(lo*per)), Slt(v, c64(hi*per))))
+	setKnownUB(v, uint64(hi*per))
+	if e.lastNowSec != nil && !e.spec.NonMonotonicClock {
+		e.assume(Implies(g, Sle(e.lastNowSec, v)))
+	}
+	if e.lastNowSec != nil {
+		e.lastNowSec = Ite(g, v, e.lastNowSec)
+	} else {
+		e.lastNowSec = v
+	}
+	return uTime(v)
+}
+
+// uDur converts a Duration (ns) to the unit (truncating toward zero).
+func (e *Engine) uDur(d *Term) *Term {
+	u := e.unitNs()
+	if u == 1 {
+		return d
+	}
+	if d.IsConst() {
+		return c64(sx(d.val, 64) / u)
+	}
+	return SDiv(d, c64(u))
+}
+
+func (e *Engine) uTrunc(v *Term, d *Term, round bool) *Term {
+	u := e.unitNs()
+	if !d.IsConst() || sx(d.val, 64) <= 0 || sx(d.val, 64)%u != 0 {
+		panic(unsupported("Time.Round/Truncate with this duration in the single-value time model"))
+	}
+	k := uint64(sx(d.val, 64) / u)
+	if k == 1 {
+		return v
+	}
+	r := URem(v, Const(64, k))
+	down := Sub(v, r)
+	if !round {
+		return down
+	}
+	return Ite(Uge(Add(r, r), Const(64, k)), Add(down, Const(64, k)), down)
+}
+
 func mkTime(sec, ns *Term) *StructV {
 	return &StructV{F: []Value{ns, sec, nilPtr}}
 }
@@ -59,6 +128,9 @@ func timeLess(s1, n1, s2, n2 *Term) *Term {
 }
 
 func (e *Engine) timeNow(g *Term) *StructV {
+	if e.unitNs() != 0 {
+		return e.uNow(g)
+	}
 	sec := e.newNondet("time.Now.sec", "bv", 64, BV(64), 0)
 	ns := e.newNondet("time.Now.ns", "bv", 64, BV(64), 0)
 	lo, hi := e.spec.ClockMin, e.spec.ClockMax
@@ -80,12 +152,22 @@ func (e *Engine) timeNow(g *Term) *StructV {
 }
 
 func (e *Engine) timeSub(a, b Value) *Term {
+	if u := e.unitNs(); u != 0 {
+		d := Sub(uVal(a), uVal(b))
+		if u == 1 {
+			return d
+		}
+		return Mul(d, c64(u))
+	}
 	s1, n1 := timeParts(a)
 	s2, n2 := timeParts(b)
 	return Add(Mul(Sub(s1, s2), Const(64, nsPerS)), Sub(n1, n2))
 }
 
 func (e *Engine) timeRound(v Value, d *Term, round bool) Value {
+	if e.unitNs() != 0 {
+		return uTime(e.uTrunc(uVal(v), d, round))
+	}
 	sec, ns := timeParts(v)
 	if !d.IsConst() {
 		panic(unsupported("Time.Round/Truncate with symbolic duration"))
@@ -248,4 +330,56 @@ func init() {
 	}
 	intrinsics["(*time.Ticker).Stop"] = noop
 	intrinsics["(*time.Ticker).Reset"] = noop
+}
+
+
+// single-value model versions of the remaining Time operations
+func init() {
+	wrap := func(name string, f func(e *Engine, args []Value, g *Term) Value) {
+		old := intrinsics[name]
+		intrinsics[name] = func(e *Engine, fr *frame, fn *ssa.Function, args []Value, g *Term, pos token.Pos) Value {
+			if e.unitNs() != 0 {
+				return f(e, args, g)
+			}
+			return old(e, fr, fn, args, g, pos)
+		}
+	}
+	wrap("(time.Time).Add", func(e *Engine, a []Value, g *Term) Value { return uTime(Add(uVal(a[0]), e.uDur(a[1].(*Term)))) })
+	wrap("(time.Time).Before", func(e *Engine, a []Value, g *Term) Value { return Slt(uVal(a[0]), uVal(a[1])) })
+	wrap("(time.Time).After", func(e *Engine, a []Value, g *Term) Value { return Slt(uVal(a[1]), uVal(a[0])) })
+	wrap("(time.Time).Equal", func(e *Engine, a []Value, g *Term) Value { return Eq(uVal(a[0]), uVal(a[1])) })
+	wrap("(time.Time).Compare", func(e *Engine, a []Value, g *Term) Value {
+		return Ite(Slt(uVal(a[0]), uVal(a[1])), c64(-1), Ite(Slt(uVal(a[1]), uVal(a[0])), c64(1), c64(0)))
+	})
+	wrap("(time.Time).IsZero", func(e *Engine, a []Value, g *Term) Value { return Eq(uVal(a[0]), c64(0)) })
+	wrap("(time.Time).Unix", func(e *Engine, a []Value, g *Term) Value { return SDiv(uVal(a[0]), c64(nsPerS/e.unitNs())) })
+	wrap("(time.Time).UnixNano", func(e *Engine, a []Value, g *Term) Value { return Mul(uVal(a[0]), c64(e.unitNs())) })
+	wrap("(time.Time).UnixMilli", func(e *Engine, a []Value, g *Term) Value {
+		if e.unitNs() == 1 {
+			return SDiv(uVal(a[0]), c64(1000000))
+		}
+		return uVal(a[0])
+	})
+	wrap("(time.Time).UnixMicro", func(e *Engine, a []Value, g *Term) Value {
+		if e.unitNs() == 1 {
+			return SDiv(uVal(a[0]), c64(1000))
+		}
+		return Mul(uVal(a[0]), c64(1000))
+	})
+	wrap("time.Unix", func(e *Engine, a []Value, g *Term) Value {
+		u := e.unitNs()
+		return uTime(Add(Mul(a[0].(*Term), c64(nsPerS/u)), e.uDur(a[1].(*Term))))
+	})
+	wrap("time.UnixMilli", func(e *Engine, a []Value, g *Term) Value {
+		if e.unitNs() == 1 {
+			return uTime(Mul(a[0].(*Term), c64(1000000)))
+		}
+		return uTime(a[0].(*Term))
+	})
+	wrap("time.UnixMicro", func(e *Engine, a []Value, g *Term) Value {
+		if e.unitNs() == 1 {
+			return uTime(Mul(a[0].(*Term), c64(1000)))
+		}
+		return uTime(SDiv(a[0].(*Term), c64(1000)))
+	})
 }
